@@ -19,7 +19,13 @@ func (p *watPrinter) printExport() error {
 				p.indent, e.Name, watPrinter_identOrIndex(e.GlobalIdx),
 			)
 		case token.FUNC:
-			// skip
+			// an inline export is printed with its function; everything else
+			// (a standalone export field, an exported import) is printed here
+			if !p.isInlineFuncExport(e.FuncIdx, e.Name) {
+				fmt.Fprintf(p.w, `%s(export "%s" (func %s))`+"\n",
+					p.indent, e.Name, watPrinter_identOrIndex(e.FuncIdx),
+				)
+			}
 		case token.MEMORY:
 			fmt.Fprintf(p.w, `%s(export "%s" (memory %s))`+"\n",
 				p.indent, e.Name, watPrinter_identOrIndex(e.MemoryIdx),
@@ -33,4 +39,13 @@ func (p *watPrinter) printExport() error {
 		}
 	}
 	return nil
+}
+
+func (p *watPrinter) isInlineFuncExport(funcIdx, exportName string) bool {
+	for _, fn := range p.m.Funcs {
+		if fn.Name == funcIdx && fn.ExportName == exportName {
+			return true
+		}
+	}
+	return false
 }
